@@ -103,7 +103,7 @@ func init() {
 			mc.Distinct, st.Covered, st.Edges, paths, convs, ds.streams)
 		run.Finish("model_checking", evid.Coverage{
 			"states": mc.Distinct, "transitions": mc.Generated,
-			"traces_validated_against_impl": st.Convs + convs,
+			"traces_validated_against_impl":  st.Convs + convs,
 			"abandon_and_cut_edges_replayed": st.Covered, "abandon_and_cut_edges": st.Edges,
 			"conversations_swept": paths, "cut_points": convs, "reader_streams_truncated": ds.streams,
 			"samples": samples, "checker_cmd": mc.Cmd,
